@@ -156,6 +156,8 @@ func (r *c03Run) waitSettled() (parked bool, hang bool) {
 // mode 3 / 4: the chunks come through the input pump (wrapTransferInput) from a reader that returns one
 // chunk per Read and reports the end of the stream with a separate empty read (3) or together with
 // the last bytes (4: a Read may return n > 0 and an error); the reads start when the pump has ended.
+// mode 5: as 3, but the stream has more reads than the buffer queues (10000): the reads start when the pump
+// has ended or stands blocked on the full queue (a backlog must hold the pump back, never lose a read).
 func c03Execute(tr *vTrace, chunks [][]byte, ops []c03Op, mode int, rng *rand.Rand) (hang bool) {
 	b := newTrzszBuffer()
 	var pumpT *trzszTransfer
@@ -211,6 +213,9 @@ func c03Execute(tr *vTrace, chunks [][]byte, ops []c03Op, mode int, rng *rand.Ra
 		wrapTransferInput(pumpT, pr, false)
 		deadline := time.Now().Add(10 * time.Second)
 		for !pr.ended() || c03PumpAlive() {
+			if mode == 5 && len(b.bufCh) == cap(b.bufCh) {
+				break
+			}
 			if time.Now().After(deadline) {
 				tr.Emit(map[string]any{"e": "hang"}, nil)
 				return true
@@ -419,6 +424,29 @@ func c03TV(d *vCtx) error {
 			hangs++
 		}
 		runs++
+	}
+	// deep backlog: more single-byte reads than the queue holds, lines of 40..90 bytes, through the input pump
+	if deep := d.pInt("deep", 10400); deep > 0 {
+		dt, err := vNewTrace(d.path(fmt.Sprintf("trace-%02d.ndjson", shards)))
+		if err != nil {
+			return err
+		}
+		var chunks [][]byte
+		var ops []c03Op
+		for len(chunks) < deep {
+			n := 40 + rng.Intn(51)
+			for j := 0; j < n; j++ {
+				chunks = append(chunks, []byte{byte('a' + rng.Intn(26))})
+			}
+			chunks = append(chunks, []byte{'\n'})
+			ops = append(ops, c03Op{"line", 0, false})
+		}
+		if c03Execute(dt, chunks, ops, 5, rng) {
+			hangs++
+		}
+		runs++
+		d.set("deep_backlog_reads", len(chunks))
+		traces = append(traces, dt)
 	}
 	events := 0
 	for _, t := range traces {
